@@ -58,6 +58,16 @@ class _OSWorker(threading.Thread):
         return w
 
 
+def _reset_workers_after_fork():
+    # OS threads do not survive fork(): a forked worker process must not reuse the parent's idle workers
+    _OSWorker.free = []
+    _OSWorker.lock = threading.Lock()
+
+
+import os as _os
+_os.register_at_fork(after_in_child=_reset_workers_after_fork)
+
+
 class _Starter:
     def __init__(self, body):
         self.body = body
